@@ -660,6 +660,15 @@ class Interpreter:
             elif isinstance(leaf, CompoundState) and leaf.initial:
                 return MicroStep(entered_states=[leaf.initial])
 
+        # An active orthogonal state must have all its children active (e.g. when one of
+        # its nested states was the target of a transition)
+        names = set(names)
+        for name in sorted(names, key=lambda s: (-self._statechart.depth_for(s), s)):
+            if isinstance(self._statechart.state_for(name), OrthogonalState):
+                inactive = [c for c in self._statechart.children_for(name) if c not in names]
+                if inactive:
+                    return MicroStep(entered_states=sorted(inactive))
+
         return None
 
     def _apply_step(self, step: MicroStep) -> MicroStep:
